@@ -397,6 +397,13 @@ impl Check for C11 {
             "o := {\"l\": [1, 0]}\no.l[o.l[1]] = 7\nprint(o.l)\no.l[o.l[1]:] = [8]\nprint(o.l)\n",
             "n := 0\nfn next() {\nn += 1\nreturn n\n}\nxs := [10, 20, 30, 40]\nxs[next()] += 5\nprint(xs)\nprint(n)\nxs[next()] = xs[next()]\nprint(xs)\nprint(n)\nxs[next():] = [1]\nprint(n)\n",
             "e := []\nt := [e, e, [0]]\nt[0] += [1, 2]\nprint(t)\nprint(e)\nt[2] += t[2]\nprint(t)\n",
+            "o := {\"id\": \"O\", \"m\": fn () {\nreturn this.id\n}}\nxs := [o.m, \"abc\"->len]\nprint(xs[0]())\nprint(xs[0:1][0]())\nprint(xs[:][0]())\nprint(xs[1:][0]())\nprint((xs + [])[0]())\n",
+            "a := {\"id\": \"A\", \"f\": fn () {\nreturn this.id\n}}\nxs := [0, 0]\nxs[0:2] = [a.f, a.f]\nprint(xs[1]())\nys := xs[0:1] + xs[1:2]\nprint(ys[1]())\n",
+            "xs := [1, 2, 3]\nxs[0:2] = {\"a\": 8, \"b\": 9}\nprint(xs)\n",
+            "xs := [1, 2, 3]\nfn nothing() {\n}\nprint(xs[nothing():])\n",
+            "xs := [1, 2, 3]\nprint(xs[:null])\n",
+            "xs := [1, 2, 3]\nxs[null:1] = [0]\nprint(xs)\n",
+            "print(\"abcdef\"[2:null])\n",
             "a := [1]\nb := a\nt := [a, 5]\nt[0] += [2]\nt[1] += 1\nprint(t)\nprint(a)\nprint(b)\n",
             "s := \"aé€b\"\nt := \"é!\"\nprint(s[:s->len()] == s)\nprint((s + t)[s->len()] == t[0])\nprint((s + t)[s->len() + 2] == t[2])\nprint((s + t)->len() == s->len() + t->len())\nprint(s->len())\n",
             "s := \"日本\"\nn := 0\nfor c in s {\nn += 1\n}\nprint(n == s->len())\nprint(s[s->len() - 1:] == s[5:6])\n",
